@@ -284,3 +284,190 @@ Example c05_http_examples :
   /\ parse_int64 [45;49;50] = Some (-12) /\ parse_int64 [49;95;48] = None
   /\ http_server_status (Some [53]) 100 true true 6 = 413.
 Proof. vm_compute. repeat split. Qed.
+
+(** ------------------------------------------------------------------------------------
+    The Thrift message layer under the Frugal header is no longer a parameter assumed graceful.
+    Model/ThriftLayer.v [thrift_layer_of cd fuel e pm h] is FBaseProcessor.Process after
+    ReadRequestHeader over a real generated processor -- ReadMessageBegin, the processor map, the
+    generated args Read through FProtocol (struct nesting limit 64, container sizes checked against
+    the bytes left) over TBinaryProtocol / TCompactProtocol incl. thrift.Skip of unknown fields, the
+    handler, the reply or exception -- for EVERY environment of declared types [e], processor map
+    [pm] and handler [h].  [fbin_codec] / [fcompact_codec]: the code as it is; [bin_codec] /
+    [compact_codec]: Model/GenCall.v's bare TProtocol readers (C02, C03). *)
+From FV Require Import Model.ThriftBin Model.ThriftCompact Model.GenCall Model.ThriftLayer Proofs.ThriftLayerProofs.
+
+(** it is the server C03's judge replays against the real generated processors *)
+Theorem c05_thrift_layer_is_generated_server : forall cd fuel e pm h payload,
+  process_request (thrift_layer_of cd fuel e pm h) payload = (do _ <- server_process_c cd fuel e pm h payload; Ok tt).
+Proof. exact thrift_layer_is_server_process. Qed.
+Print Assumptions c05_thrift_layer_is_generated_server.
+
+(** on EVERY byte string (any list of integers) it ends in a value or an error: never a Go panic,
+    and never out of fuel once fuel >= 4 * length + 8 (every primitive read consumes a byte or the
+    pending bool of a compact field header; every level of nesting consumes a byte).  The only
+    hypothesis is on the handler: what it returns can be written without a nil dereference. *)
+Theorem c05_thrift_layer_graceful_binary : forall fuel e pm h b,
+  handler_writable fbin_codec e pm h -> (layer_fuel (length b) <= fuel)%nat ->
+  graceful (thrift_layer_of fbin_codec fuel e pm h b).
+Proof. exact thrift_layer_graceful_fbin. Qed.
+Print Assumptions c05_thrift_layer_graceful_binary.
+
+Theorem c05_thrift_layer_graceful_compact : forall fuel e pm h b,
+  handler_writable fcompact_codec e pm h -> (layer_fuel (length b) <= fuel)%nat ->
+  graceful (thrift_layer_of fcompact_codec fuel e pm h b).
+Proof. exact thrift_layer_graceful_fcompact. Qed.
+Print Assumptions c05_thrift_layer_graceful_compact.
+
+(** the same for the bare readers (the model C03 is stated with) *)
+Theorem c05_thrift_layer_graceful_bare : forall fuel e pm h b,
+  (layer_fuel (length b) <= fuel)%nat ->
+  (handler_writable bin_codec e pm h -> graceful (thrift_layer_of bin_codec fuel e pm h b)) /\
+  (handler_writable compact_codec e pm h -> graceful (thrift_layer_of compact_codec fuel e pm h b)).
+Proof. exact thrift_layer_graceful_bare. Qed.
+Print Assumptions c05_thrift_layer_graceful_bare.
+
+(** the generated Read alone (the binary analogue of c02_compact_read_never_panics, both with the
+    fuel bound): any declared type, any bytes *)
+Theorem c05_generated_read_graceful : forall fuel e t b,
+  ((2 * length b + 2 <= fuel)%nat -> graceful (gread fuel e t b)) /\
+  ((4 * length b + 2 <= fuel)%nat -> graceful (gcread fuel e t b)).
+Proof. exact generated_read_graceful. Qed.
+Print Assumptions c05_generated_read_graceful.
+
+(** thrift.Skip on any TType, depth and bytes, both protocols: a rest or an error *)
+Theorem c05_skip_graceful : forall fuel depth wt b p,
+  ((2 * length b + 2 <= fuel)%nat -> graceful (skip fuel depth wt b)) /\
+  ((4 * length b + 4 <= fuel)%nat -> graceful (cskip fuel depth wt (p, b))).
+Proof. exact skip_graceful_both. Qed.
+Print Assumptions c05_skip_graceful.
+
+(** the two FProtocol guards only turn values into errors: what the generated Read accepts through
+    FProtocol, the bare protocol readers accept with the same value and rest *)
+Theorem c05_fprotocol_guards_only_reject : forall fuel e t b x,
+  (pread bin_prim true fuel e t b = Ok x -> gread fuel e t b = Ok x) /\
+  (pread compact_prim true fuel e t b = Ok x -> gcread fuel e t b = Ok x).
+Proof. exact guards_only_reject. Qed.
+Print Assumptions c05_fprotocol_guards_only_reject.
+
+(** c05_message_receivers_keep_serving WITHOUT the gracefulness hypothesis: NATS server worker,
+    scope subscriber / STOMP worker and HTTP handler with a generated processor underneath *)
+Theorem c05_message_receivers_keep_serving_binary : forall e pm h, handler_writable fbin_codec e pm h ->
+  let tl := thrift_layer fbin_codec e pm h in
+  forall ms, (forall m, In m ms -> wf_msg m) ->
+    run_loop nats_client_body ms = map nats_client_body ms
+    /\ run_loop (nats_server_body tl) ms = map (nats_server_body tl) ms
+    /\ run_loop (scope_body tl) ms = map (scope_body tl) ms
+    /\ run_loop (http_body tl) ms = map (http_body tl) ms
+    /\ (forall m, In m ms ->
+          (exists o, nats_client_body m = Continue o) /\
+          (exists o, nats_server_body tl m = Continue o) /\
+          (exists o, scope_body tl m = Continue o) /\
+          (exists o, http_body tl m = Continue o)).
+Proof.
+  intros e pm h Hh tl.
+  exact (c05_message_receivers_keep_serving tl (thrift_layer_total_fbin e pm h Hh)).
+Qed.
+Print Assumptions c05_message_receivers_keep_serving_binary.
+
+Theorem c05_message_receivers_keep_serving_compact : forall e pm h, handler_writable fcompact_codec e pm h ->
+  let tl := thrift_layer fcompact_codec e pm h in
+  forall ms, (forall m, In m ms -> wf_msg m) ->
+    run_loop nats_client_body ms = map nats_client_body ms
+    /\ run_loop (nats_server_body tl) ms = map (nats_server_body tl) ms
+    /\ run_loop (scope_body tl) ms = map (scope_body tl) ms
+    /\ run_loop (http_body tl) ms = map (http_body tl) ms
+    /\ (forall m, In m ms ->
+          (exists o, nats_client_body m = Continue o) /\
+          (exists o, nats_server_body tl m = Continue o) /\
+          (exists o, scope_body tl m = Continue o) /\
+          (exists o, http_body tl m = Continue o)).
+Proof.
+  intros e pm h Hh tl.
+  exact (c05_message_receivers_keep_serving tl (thrift_layer_total_fcompact e pm h Hh)).
+Qed.
+Print Assumptions c05_message_receivers_keep_serving_compact.
+
+(** a well-formed header hands exactly the rest of the message to the generated processor *)
+Theorem c05_wellformed_request_reaches_generated_processor : forall cd e pm h l op payload,
+  header_size l < 2147483648 -> Headers.lookup opid_header l = Some op ->
+  process_request (thrift_layer cd e pm h) (marshal l ++ payload) = thrift_layer cd e pm h payload.
+Proof. intros cd e pm h l op payload. exact (process_request_wellformed (thrift_layer cd e pm h) l op payload). Qed.
+Print Assumptions c05_wellformed_request_reaches_generated_processor.
+
+(** FSimpleServer.accept with a generated processor, binary or compact: on every byte stream and
+    chunking the connection loop ends without a crash and hands the processor exactly the
+    size-prefixed blocks of the stream ([on_bytes]: the frames are made of bytes and shorter than
+    2 GiB, as everything cut out of such a stream is) *)
+Theorem c05_simple_server_generated_processor_total : forall e pm h maxlen chunks final,
+  chunking_ok chunks ->
+  (handler_writable fbin_codec e pm h ->
+   let r := accept_loop (on_bytes (gen_process fbin_codec e pm h)) (S (length (concat chunks))) maxlen (fresh chunks final) in
+   accept_end_ok (snd r) /\
+   r = flat_accept_loop (on_bytes (gen_process fbin_codec e pm h)) (S (length (concat chunks))) maxlen final (concat chunks) /\
+   (exists rest, concat chunks = frames_wire (fst r) ++ rest) /\ Forall (fun f => zlen f <= maxlen) (fst r)) /\
+  (handler_writable fcompact_codec e pm h ->
+   let r := accept_loop (on_bytes (gen_process fcompact_codec e pm h)) (S (length (concat chunks))) maxlen (fresh chunks final) in
+   accept_end_ok (snd r) /\
+   r = flat_accept_loop (on_bytes (gen_process fcompact_codec e pm h)) (S (length (concat chunks))) maxlen final (concat chunks) /\
+   (exists rest, concat chunks = frames_wire (fst r) ++ rest) /\ Forall (fun f => zlen f <= maxlen) (fst r)).
+Proof.
+  intros e pm h maxlen chunks final Hc. split; intros Hh.
+  - apply accept_loop_total; [|exact Hc]. apply gen_process_graceful, thrift_layer_total_fbin, Hh.
+  - apply accept_loop_total; [|exact Hc]. apply gen_process_graceful, thrift_layer_total_fcompact, Hh.
+Qed.
+Print Assumptions c05_simple_server_generated_processor_total.
+
+(** non-vacuity: a service with a recursive type (struct Node { 1: optional Node next, 2: list<string> names }),
+    method i32 walk(1: Node n), a handler that returns 7.  Outcome classes ([layer_class]): 3 handler
+    invoked, 2 arguments refused (PROTOCOL_ERROR reply), 1 unknown function answered, 0 no message header. *)
+Definition ex_env : env :=
+  [(1, DStruct KStruct [mkField 1 MOptional (TRef 1) None; mkField 2 MDefault (TList TString) None]);
+   (2, mk_args [mkField 1 MDefault (TRef 1) None]);
+   (3, mk_result (Some TI32) [])].
+Definition ex_walk : method := mkMethod [87;97;108;107] [119;97;108;107] false 2 3 (Some TI32) [].
+Definition ex_pm : list (bytes * method) := [(m_wire ex_walk, ex_walk)].
+Definition ex_h : handler := fun _ _ => HRet (Some (VInt 7)).
+(** args { 1: Node with [k] more Nodes nested through field 1 } under binary / compact *)
+Definition ex_bin_req (k : nat) : bytes :=
+  msg_begin_enc [119;97;108;107] T_CALL 0 ++ concat (repeat [12;0;1] (S k)) ++ repeat 0 (S (S k)).
+Definition ex_compact_req (k : nat) : bytes :=
+  cmsg_begin_enc [119;97;108;107] T_CALL 0 ++ repeat 28 (S k) ++ repeat 0 (S (S k)).
+Definition ex_class cd b := layer_class cd (layer_fuel (length b)) ex_env ex_pm ex_h b.
+
+Example c05_thrift_layer_examples :
+  handler_writable fbin_codec ex_env ex_pm ex_h /\ handler_writable fcompact_codec ex_env ex_pm ex_h
+  (* 64 structs open (args, Node, 62 more): served; one more: refused; the bare readers go on *)
+  /\ ex_class fbin_codec (ex_bin_req 62) = 3 /\ ex_class fbin_codec (ex_bin_req 63) = 2
+  /\ ex_class bin_codec (ex_bin_req 63) = 3
+  /\ ex_class fcompact_codec (ex_compact_req 62) = 3 /\ ex_class fcompact_codec (ex_compact_req 63) = 2
+  (* truncated inside the nesting *)
+  /\ ex_class fbin_codec (firstn 40 (ex_bin_req 20)) = 2
+  (* Node.names announcing 2^31-1 strings, then nothing: refused (and by the bare reader: EOF) *)
+  /\ ex_class fbin_codec (msg_begin_enc [119;97;108;107] T_CALL 0 ++ [12;0;1; 15;0;2; 11; 127;255;255;255]) = 2
+  /\ ex_class bin_codec (msg_begin_enc [119;97;108;107] T_CALL 0 ++ [12;0;1; 15;0;2; 11; 127;255;255;255]) = 2
+  /\ ex_class fcompact_codec (cmsg_begin_enc [119;97;108;107] T_CALL 0 ++ [28; 25; 248; 255;255;255;255;7]) = 2
+  (* a negative size; an unknown field of an unknown type; an unknown function; no message header *)
+  /\ ex_class fbin_codec (msg_begin_enc [119;97;108;107] T_CALL 0 ++ [12;0;1; 15;0;2; 11; 255;255;255;255]) = 2
+  /\ ex_class fbin_codec (msg_begin_enc [119;97;108;107] T_CALL 0 ++ [99;0;9; 0]) = 2
+  /\ ex_class fbin_codec (msg_begin_enc [110;111] T_CALL 0 ++ [0]) = 1
+  /\ ex_class fbin_codec [1;2;3] = 0 /\ ex_class fcompact_codec [130; 1] = 0
+  (* plugged into a receiver: served, and the next message too *)
+  /\ run_loop (nats_server_body (thrift_layer fbin_codec ex_env ex_pm ex_h))
+       [[0;0;0;0] ++ marshal [(opid_header, [49])] ++ ex_bin_req 63;
+        [0;0;0;0] ++ marshal [(opid_header, [50])] ++ ex_bin_req 1]
+     = [Continue Handled; Continue Handled].
+Proof.
+  split; [intros m args p [<-|[]]; vm_compute; discriminate|].
+  split; [intros m args p [<-|[]]; vm_compute; discriminate|].
+  vm_compute. repeat split.
+Qed.
+
+(** FProtocol's refusal of a container that announces more elements than bytes remain changes no
+    outcome under the binary protocol: the bare reader fails on every such input too (each element
+    takes at least one byte) -- after having allocated room for the announced size *)
+Theorem c05_size_guard_changes_no_outcome_binary : forall e fuel n b,
+  (2 * length b + 3 <= fuel)%nat -> zlen b < n ->
+  (forall et, is_ok (wdec_seq fuel e et n b) = false) /\
+  (forall kt vt, is_ok (wdec_pairs fuel e kt vt n b) = false).
+Proof. exact size_guard_changes_no_outcome_bin. Qed.
+Print Assumptions c05_size_guard_changes_no_outcome_binary.
